@@ -380,6 +380,46 @@ def showing_components(chk, ctx) -> None:
     chk.ob('C12.show_all', f'State.{fi.name}', ok_show and ok_muck and n_show > 0 and n_muck > 0, fi.loc,
            'showing without naming cards tables the whole hand (all cards, all face up); mucking tables nothing',
            got=f'show paths ok: {ok_show} ({n_show}); muck paths ok: {ok_muck} ({n_muck})')
+    # naming the cards to show: exactly the named (known) cards are face up; cards the engine fills in from the hand stay face down
+    n_exp = 0
+    ok_flags = True
+    why = ''
+    for p in ctx.paths(fi):
+        if not p.returned:
+            continue
+        cs = [unversion(c) for c in p.conds()]
+        if not (T.mk_not(isbool) in cs and T.mk_not(none) in cs) or ('const', False) in cs:
+            continue          # (a constant-false assumption: the path is infeasible)
+        def never_none(t):
+            return t[0] in ('concat', 'repeat', 'tuple', 'list', 'num', 'lin') or (t[0] == 'call' and t[1] in ('tuple', 'list', 'len')) \
+                or (t[0] == 'mcall' and t[2] == 'clean')
+
+        def is_none_of_value(c):
+            if c[0] == 'is' and ('const', None) in c[1]:
+                other = [y for y in c[1] if y != ('const', None)]
+                return len(other) == 1 and never_none(other[0])
+            return False
+        if any(is_none_of_value(c) or (c[0] == 'or' and all(is_none_of_value(d) for d in c[1])) for c in cs):
+            continue          # "a freshly built tuple is None" cannot hold: the path is infeasible
+        r = unversion(p.outcome[1])
+        if r[0] != 'tuple' or len(r[1]) != 5:
+            ok_flags = False
+            continue
+        stat = r[1][3]
+        n_exp += 1
+        good = stat[0] == 'concat' and len(stat) == 3 and stat[1][0] == 'repeat' and stat[1][1] == ('tuple', (('const', True),)) \
+            and stat[2][0] == 'repeat' and stat[2][1] == ('tuple', (('const', False),))
+        if good:
+            n_up = stat[1][2]          # how many flags are True
+            shown = T.show(n_up)
+            good = n_up[0] == 'call' and n_up[1] == 'len' and 'status_or_hole_cards' in shown and 'filterfalse' not in shown \
+                and shown.startswith('len(tuple(filter(None, ')
+        if not good:
+            ok_flags = False
+            why = T.show(stat)[:160]
+    chk.ob('C12.show_flags', f'State.{fi.name}', ok_flags and n_exp > 0, fi.loc,
+           'when the cards to show are named, exactly those cards are marked face up; the rest of the hand (known to the engine or not) stays face down '
+           'and takes no part in the showdown', got=why or f'{n_exp} explicit path(s)')
     guards = []
     for p in ctx.paths(fi):
         if p.raised and p.outcome[1] == 'ValueError' and p.conds():
